@@ -1017,6 +1017,7 @@ class SSHConnection(SSHPacketHandler, asyncio.Protocol):
         self._auth_final = False
         self._auth_methods = [b'none']
         self._auth_was_trivial = True
+        self._auth_request_pending = False
         self._username = ''
 
         self._channels: Dict[int, SSHChannel] = {}
@@ -2095,6 +2096,7 @@ class SSHConnection(SSHPacketHandler, asyncio.Protocol):
 
         self.send_userauth_packet(MSG_USERAUTH_REQUEST, packet[1:],
                                   trivial=trivial)
+        self._auth_request_pending = True
 
     def send_userauth_failure(self, partial_success: bool) -> None:
         """Send a user authentication failure response"""
@@ -2592,6 +2594,8 @@ class SSHConnection(SSHPacketHandler, asyncio.Protocol):
         self.logger.debug2('Remaining auth methods: %s',
                            auth_methods or 'None')
 
+        self._auth_request_pending = False
+
         if self._wait == 'auth_methods' and self._waiter and \
                 not self._waiter.cancelled():
             self._waiter.set_result(None)
@@ -2629,8 +2633,11 @@ class SSHConnection(SSHPacketHandler, asyncio.Protocol):
 
         packet.check_end()
 
-        if self.is_client() and self._auth:
+        # Only accept this while a request of ours is waiting for an answer,
+        # not while the next request is still being prepared
+        if self.is_client() and self._auth and self._auth_request_pending:
             auth = cast(ClientAuth, self._auth)
+            self._auth_request_pending = False
 
             if self._auth_was_trivial and self._disable_trivial_auth:
                 raise PermissionDenied('Trivial auth disabled')
